@@ -1,0 +1,45 @@
+//go:build verif
+
+/*
+SPDX-License-Identifier: Apache-2.0
+*/
+
+package presexch
+
+import (
+	"github.com/hyperledger/aries-framework-go/component/models/verifiable"
+)
+
+// VerifFilterField runs filterField: the JSONPath selection and the JSON-schema filter of one constraints field
+// on a credential held as a JSON map (nil = the field is satisfied).
+func VerifFilterField(f *Field, credential map[string]interface{}) error {
+	return filterField(f, credential)
+}
+
+// VerifPathTransform mirrors pathTransform.
+type VerifPathTransform struct {
+	NewPath string
+	OldPath string
+}
+
+// VerifCompactArrayPaths runs compactArrayPathsInto: the streaming JSONPath evaluation of a field's paths over
+// the credential's JSON and the renumbering of array positions (set is the numbering shared by all fields).
+func VerifCompactArrayPaths(keys []string, src []byte, set map[string]int) ([]VerifPathTransform, error) {
+	paths, err := compactArrayPathsInto(keys, src, set)
+	if err != nil {
+		return nil, err
+	}
+
+	out := make([]VerifPathTransform, 0, len(paths))
+	for _, p := range paths {
+		out = append(out, VerifPathTransform{NewPath: p.newPath, OldPath: p.oldPath})
+	}
+
+	return out, nil
+}
+
+// VerifCreateNewCredential runs createNewCredential (the field copy of limit disclosure / predicates).
+func VerifCreateNewCredential(constraints *Constraints, src, limitedCred []byte,
+	credential *verifiable.Credential, opts ...verifiable.CredentialOpt) (*verifiable.Credential, error) {
+	return createNewCredential(constraints, src, limitedCred, credential, opts...)
+}
